@@ -15,7 +15,7 @@ def load_legacy():
 class C05(PropBase):
     id = "C05"
     corr_fields = ['alt', 'alts']
-    lean_modules = ["SqModel.Props.C05", "SqModel.Proofs.BridgeBits", "SqModel.Proofs.Bridge", "SqModel.Proofs.BridgeRat"]
+    lean_modules = ["SqModel.Props.C05", "SqModel.Proofs.BridgeBits", "SqModel.Proofs.Bridge", "SqModel.Proofs.BridgeRat", "SqModel.Proofs.BridgePlane"]
     extractors = ["ma_code", "trans"]
     rule = ("all 8192 AC13 codes x {DF4, DF20} and all 4096 AC12 codes x TC 9..18 (quick: 3 type codes), each in a random "
             "payload/address, applied to existing rows with 14 different pasts (created by DF11 / surface / position / identification / velocity / DF4 / DF5 / DF20 ...) and as creating frame, x {-U, -R}; row.altitude against the Lean "
@@ -89,9 +89,51 @@ class C05(PropBase):
         rep.sample({"frame": frames[len(frames) // 2], "code": codes[len(frames) // 2], **ctx}, limit=5)
         return True
 
+    def aba(self, rep, run, rng, tier, driver_ok):
+        """A-B-A: a reply / squitter with altitude code X, then a frame of *another* format that writes (or blanks) the altitude,
+        then the first frame's code again - the altitude after a frame is a function of that frame, whatever the row heard
+        before, and in particular of an identical code heard earlier through the same route."""
+        n = 60 if tier == "quick" else 1500
+        kindsA = ["df4", "df20", "tc11", "tc18"]
+        ops, plan = [], []
+        for c in range(n):
+            u, r = gen.ALL_CFGS[c % 4]
+            a = 0x310000 + c
+            nx = rng.randrange(40, 2040)
+            ny = rng.choice([v for v in (nx + rng.randrange(1, 40), nx - rng.randrange(1, 30)) if 40 <= v < 2048] or [nx + 1])
+            def mk(kind, N):
+                if kind == "df4":
+                    return F.df4(rng.randrange(8), 0, 0, F.ac13_q1(N), a)
+                if kind == "df20":
+                    return F.df20(rng.randrange(8), 0, 0, F.ac13_q1(N), rng.randrange(1 << 56), a)
+                la, lo = gen.rand_cpr(rng)
+                return F.df17(5, a, F.me_airpos(int(kind[2:]), 0, 0, F.ac12_q1(N), 0, rng.randrange(2), la, lo))
+            ka = kindsA[c % 4]
+            kb = rng.choice([k for k in kindsA + ["surface"] if k != ka])
+            fa1, fa2 = mk(ka, nx), mk(ka, nx)
+            fb = gen.rand_frame(rng, "tc%d" % rng.randrange(5, 9), a) if kb == "surface" else mk(kb, ny)
+            lines = [F.df11(5, a, 0), fa1, fb, fa2]
+            ops += ["reset", gen.cfg_op(use_update=u, relaxed=r), f"case aba{c}"] + gen.seg(lines) + ["dump"]
+            plan.append((c, a, 25 * nx - 1000, ka, kb, u, r, lines))
+        impl, _, model = run.execute(ops, model=driver_ok)
+        rep.evaluations += n; rep.traces += 1
+        self.corr(rep, impl, model, {"scenario": "A-B-A"})
+        ci = core.split_cases(impl)
+        for (c, a, want, ka, kb, u, r, lines) in plan:
+            got = gen.parse_dump(ci.get(f"aba{c}", [])).get(a, {}).get("alt")
+            if got != str(want):
+                self.fail(rep, f"{ka} frame with altitude {want} ft, then a {kb} frame, then the same {ka} code again: row shows {got}, the code says {want} "
+                               f"(use_update={u}, relaxed={r})",
+                          {"ops": ["reset", gen.cfg_op(use_update=u, relaxed=r)] + gen.seg(lines) + ["dump"], "address": a, "spec_alt": str(want)})
+                return False
+            rep.nontriv(("aba", ka, kb, u, r))
+        return True
+
     def explore(self, rep, run, rng, tier, driver_ok):
         legacy = load_legacy()
         known = {}
+        if not self.aba(rep, run, core.rng_for(rep.seed + 5, "C05aba"), tier, driver_ok):
+            return
         tcs = [9, 11, 18] if tier == "quick" else list(range(9, 19))
         kinds = [("df4", list(range(8192))), ("df20", list(range(8192)))] + [("tc%d" % t, list(range(4096))) for t in tcs]
         for kind, codes in kinds:
